@@ -551,6 +551,19 @@ def r8_path_fidelity(ctx):
     return out
 
 
+def r9_no_cwd_from_c_callers(ctx):
+    """'never the current directory': the library itself never passes AT_FDCWD to a lookup (R1/R3), and a C caller
+    cannot make it do so either -- the one gate every descriptor argument of the C API passes through refuses negative
+    numbers, AT_FDCWD (-100) included, before anything is borrowed from them."""
+    from .c17 import r1_fd_params
+    out = []
+    for i in r1_fd_params(ctx):
+        if i.key == "try_as_borrowed_fd:guard" or i.key.startswith("try_as_borrowed_fd:"):
+            i.rule = "C05.R9"
+            out.append(i)
+    return out
+
+
 RULES = [
     ("C05.R8", r8_path_fidelity, 18, False),
     ("C05.R1", r1_layering, 27, False),
@@ -559,4 +572,5 @@ RULES = [
     ("C05.R4", r4_resolve_masks, 4, False),
     ("C05.R5", r5_at_flags, 8, False),
     ("C05.R7", r7_followed, 1, False),
+    ("C05.R9", r9_no_cwd_from_c_callers, 1, True),
 ]
